@@ -91,7 +91,7 @@ NoAns == [fid |-> <<"", 0, "">>, kind |-> "none", cls |-> "", to |-> "", vals |-
 -----------------------------------------------------------------------------
 \* events, in the shape RcMon expects (only the fields it reads for each kind)
 Ev0 == [ev |-> "", c |-> "", i |-> 0, n |-> "", conn |-> <<>>, k |-> "", slots |-> <<>>, dups |-> <<>>, toks |-> <<>>,
-        rep |-> Rep("", <<>>, 0, ""), fid |-> "", kind |-> "", cls |-> "", to |-> "", num |-> 0, seen |-> <<>>]
+        rep |-> Rep("", <<>>, 0, ""), fid |-> "", kind |-> "", cls |-> "", to |-> "", num |-> 0, size |-> 0, seen |-> <<>>]
 RECURSIVE Fold(_, _)
 Fold(m, evs) == IF evs = <<>> THEN m ELSE Fold(MonApply(m, Head(evs)), Tail(evs))
 
